@@ -1340,7 +1340,10 @@ impl<'tcx> Ctx<'tcx> {
     fn run(&mut self, name: &str) -> J {
         let tcx = self.tcx;
         // 1. THIR of every body, before anything steals it
-        let owners: Vec<LocalDefId> = tcx.hir_body_owners().collect();
+        let owners: Vec<LocalDefId> = tcx
+            .hir_body_owners()
+            .filter(|d| !matches!(tcx.def_kind(d.to_def_id()), DefKind::AnonConst | DefKind::InlineConst))
+            .collect();
         let mut thirs: Vec<(LocalDefId, J)> = vec![];
         for did in owners.iter() {
             self.owner = Some(*did);
